@@ -87,7 +87,7 @@ func seeds(o *out, op Opts) {
 
 func genC01(o *out, r *Rng) {
 	o.dir("PROJ", "text")
-	o.dir("ORACLE", "sem,validate")
+	o.dir("ORACLE", "sem,validate,closed")
 	seeds(o, Opts{Sw: defSw})
 	for size := 1; size <= scale(3, 4); size++ {
 		for _, b := range EnumSkeletons(size, 2) {
@@ -212,7 +212,7 @@ func genC05(o *out, r *Rng) {
 
 func genC06(o *out, r *Rng) {
 	o.dir("PROJ", "text")
-	o.dir("ORACLE", "hoist")
+	o.dir("ORACLE", "hoist,cmdline")
 	seeds(o, Opts{Sw: defSw})
 	for i := 0; i < scale(400, 8000); i++ {
 		// 1-4 scripts, inline texts from a small pool x types, moves(), in every nesting context
@@ -268,16 +268,60 @@ func genC07(o *out, r *Rng) {
 	o.dir("PROJ", "text")
 	texts := []string{"Hello, this is some long text that I want Poryscript to automatically format for me.", "Hi\\pA paragraph that is long enough to wrap at least twice in a narrow box\\Nand goes on here", "{PLAYER} one two three four five six seven eight nine ten eleven"}
 	fontspec := "fA|fA:100:3:6:" + Hex(" ") + "=3;" + Hex("default") + "=6;" + Hex("{PLAYER}") + "=40|fB:60:2:0:" + Hex(" ") + "=2;" + Hex("default") + "=5;" + Hex("e") + "=9"
+	type fcall struct {
+		call             string
+		font             string // "" = inherit (-f, else the config default)
+		maxW, nl, cursor int    // 0 / 0 / -1 = inherit
+	}
+	type fdef struct {
+		widths         string
+		maxW, nl, curs int
+	}
+	fonts := map[string]fdef{
+		"fA": {Hex(" ") + "=3;" + Hex("default") + "=6;" + Hex("{PLAYER}") + "=40", 100, 3, 6},
+		"fB": {Hex(" ") + "=2;" + Hex("default") + "=5;" + Hex("e") + "=9", 60, 2, 0},
+	}
+	calls := []fcall{
+		{"format(\"%s\")", "", 0, 0, -1}, {"format(\"%s\", \"fB\")", "fB", 0, 0, -1}, {"format(\"%s\", 80)", "", 80, 0, -1},
+		{"format(\"%s\", \"fB\", 80)", "fB", 80, 0, -1}, {"format(\"%s\", 80, \"fB\")", "fB", 80, 0, -1},
+		{"format(\"%s\", fontId=\"fB\")", "fB", 0, 0, -1}, {"format(\"%s\", maxLineLength=80)", "", 80, 0, -1}, {"format(\"%s\", numLines=1)", "", 0, 1, -1},
+		{"format(\"%s\", numLines=4, cursorOverlapWidth=11)", "", 0, 4, 11}, {"format(\"%s\", \"fB\", numLines=3)", "fB", 0, 3, -1},
+		{"format(\"%s\", 90, cursorOverlapWidth=4, fontId=\"fB\")", "fB", 90, 0, 4}, {"format(\"%s\", \"fB\", 70, numLines=3, cursorOverlapWidth=2)", "fB", 70, 3, 2},
+		{"format(ascii\"%s\", 75)", "", 75, 0, -1}, {"format(\"%s\", \"nofont\")", "nofont", 0, 0, -1}, {"format(\"%s\", maxLineLength=0)", "", -1, 0, -1},
+		{"format(\"%s\", \"fA\", 90)", "fA", 90, 0, -1}, {"format(\"%s\", 190, \"fA\")", "fA", 190, 0, -1},
+	}
 	for _, tx := range texts {
-		for _, call := range []string{
-			"format(\"%s\")", "format(\"%s\", \"fB\")", "format(\"%s\", 80)", "format(\"%s\", \"fB\", 80)", "format(\"%s\", 80, \"fB\")",
-			"format(\"%s\", fontId=\"fB\")", "format(\"%s\", maxLineLength=80)", "format(\"%s\", numLines=1)", "format(\"%s\", numLines=4, cursorOverlapWidth=11)",
-			"format(\"%s\", \"fB\", numLines=3)", "format(\"%s\", 90, cursorOverlapWidth=4, fontId=\"fB\")", "format(\"%s\", \"fB\", 70, numLines=3, cursorOverlapWidth=2)",
-			"format(ascii\"%s\", 75)", "format(\"%s\", \"nofont\")", "format(\"%s\", maxLineLength=0)",
-		} {
+		for _, fcl := range calls {
+			call := fcl.call
 			src := "script S { msgbox(" + fmt.Sprintf(call, tx) + ") }\ntext T { " + fmt.Sprintf(call, tx) + " }"
 			for _, cli := range [][2]string{{"", "0"}, {"fB", "0"}, {"", "120"}, {"fB", "50"}, {"bogus", "0"}} {
 				ml, _ := strconv.Atoi(cli[1])
+				// the parameters format() must use: named/positional > -f / -l > font config (numLines default 2)
+				font := fcl.font
+				if font == "" {
+					font = cli[0]
+				}
+				if font == "" {
+					font = "fA"
+				}
+				if fd, ok := fonts[font]; ok && fcl.maxW >= 0 { // an explicit maxLineLength=0 has no documented meaning: no expectation
+					maxW := fcl.maxW
+					if maxW <= 0 {
+						maxW = ml
+					}
+					if maxW <= 0 {
+						maxW = fd.maxW
+					}
+					nl := fcl.nl
+					if nl <= 0 {
+						nl = fd.nl
+					}
+					cu := fcl.cursor
+					if cu <= 0 {
+						cu = fd.curs
+					}
+					o.dir("EXPECTFMT", "T", fd.widths, fmt.Sprint(maxW), fmt.Sprint(cu), font, fmt.Sprint(nl), Hex(tx))
+				}
 				o.add(E2E(src, Opts{Opt: true, Sw: defSw, FontSpec: fontspec, CliFont: cli[0], CliMaxLen: ml}))
 			}
 			o.add(E2E(src, Opts{Opt: true, Sw: defSw}))
@@ -289,7 +333,7 @@ func genC07(o *out, r *Rng) {
 
 func genC08(o *out, r *Rng) {
 	o.dir("PROJ", "text")
-	o.dir("ORACLE", "mapscripts")
+	o.dir("ORACLE", "mapscripts,cmdline,hoist")
 	seeds(o, Opts{Sw: defSw})
 	for i := 0; i < scale(500, 10000); i++ {
 		g := NewProgGen(r)
@@ -355,24 +399,28 @@ func genC10(o *out, r *Rng) {
 	atoms := []string{"foo", "VAR_1", "7", "0x1F", "-3", "*", "+", "==", "<", "if", "value", "var", "global", "local", "TRUE", "script", "(", ")"}
 	names := []string{"lock", "setvar", "special", "callnative", "end", "return", "goto", "setobjectscope", "local_cmd", "x", "héllo", "msgbox", "waitstate", "faceplayer"}
 	for i := 0; i < scale(1500, 30000); i++ {
-		// straight-line stretch of commands with random argument lists
+		// straight-line stretch of commands with random argument lists; the expected output lines are built alongside
 		n := 1 + r.N(5)
 		var t Toks
+		var want []string
 		for c := 0; c < n; c++ {
 			name := names[r.N(len(names))]
 			if (name == "end" || name == "return") && c < n-1 && r.P(80) {
 				name = "lock"
 			}
 			t = append(t, name)
-			if r.P(75) {
+			line := name
+			if r.P(75) && name != "end" && name != "return" { // end / return take no arguments in the scripting language
 				t = append(t, "(")
 				na := r.N(5)
+				var args []string
 				for a := 0; a < na; a++ {
 					if a > 0 {
 						t = append(t, ",")
 					}
 					depth := 0
 					nt := 1 + r.N(4)
+					var arg []string
 					for k := 0; k < nt; k++ {
 						x := atoms[r.N(len(atoms))]
 						if x == ")" {
@@ -390,16 +438,24 @@ func genC10(o *out, r *Rng) {
 							}
 						}
 						t = append(t, x)
+						arg = append(arg, x)
 					}
 					for ; depth > 0; depth-- {
 						t = append(t, "q", ")")
+						arg = append(arg, "q", ")")
 					}
+					args = append(args, strings.Join(arg, " "))
 				}
 				t = append(t, ")")
+				if len(args) > 0 {
+					line += " " + strings.Join(args, ", ")
+				}
 			}
+			want = append(want, line)
 		}
 		body := t
 		src := append(append(Toks{"script", "S", "{"}, body...), "}")
+		o.dir("EXPECTLINES", Hex(strings.Join(want, "\n")))
 		if r.P(30) {
 			o.add(E2E(src.Layout(r, false), Opts{Opt: r.P(50), Sw: defSw}))
 		} else {
@@ -407,6 +463,13 @@ func genC10(o *out, r *Rng) {
 		}
 	}
 	// single keyword arguments, end/return in the middle, poryswitch fallback with inline text
+	for _, s := range [][2]string{{"script S { setobjectscope(local) faceplayer }", "setobjectscope local\nfaceplayer"}, {"script S { setobjectscope(global) faceplayer }", "setobjectscope global\nfaceplayer"},
+		{"script S { lock end release msgbox(MSG) }", "lock\nend\nrelease\nmsgbox MSG"}, {"script S { lock return release }", "lock\nreturn\nrelease"}} {
+		o.dir("EXPECTLINES", Hex(s[1]))
+		o.add(E2E(s[0], Opts{Opt: true, Sw: defSw}))
+		o.dir("EXPECTLINES", Hex(s[1]))
+		o.add(E2E(s[0], Opts{Opt: false, Sw: defSw}))
+	}
 	for _, s := range []string{
 		"script S { setobjectscope(local) faceplayer }", "script S { setobjectscope(global) faceplayer }", "script S { a(local) : }", "script S { lock end release msgbox(\"x\") }",
 		"script S { lock return release }", "script S { if (flag(A)) { a end b } c }", "script S { poryswitch(V) { Q: a _: msgbox(\"t\", MSGBOX_NPC) } applymovement(P, moves(walk_up)) }",
@@ -696,6 +759,13 @@ func genC17(o *out, r *Rng) {
 			}
 		}
 		x := mk(r.N(4))
+		for k := range x { // the statement under test uses names of its own
+			for _, pre := range []string{"Scr", "Mv", "Mt", "Tx"} {
+				if strings.HasPrefix(x[k], pre) && len(x[k]) > len(pre) && x[k][len(pre)] >= '0' && x[k][len(pre)] <= '9' {
+					x[k] = "X" + x[k]
+				}
+			}
+		}
 		if r.P(40) {
 			// a script whose labels imitate the generated labels of *other* scripts (legal: they are not its own)
 			x = Toks{"script", "Xs", "{", "lock", fmt.Sprintf("Other_%d", 1+r.N(4)), ":", "if", "(", "flag", "(", "F", ")", ")", "{", fmt.Sprintf("Other_%d", 5+r.N(3)), ":", "a", "}", "b", "}"}
@@ -712,6 +782,7 @@ func genC17(o *out, r *Rng) {
 		}
 		o.dir("EMBED", Hex(x.Canon()), Hex(before.Canon()), Hex(after.Canon()))
 		o.add(E2E(x.Canon(), Opts{Opt: true, Sw: g.Sw}))
+		o.add(E2E(before.Canon()+after.Canon(), Opts{Opt: true, Sw: g.Sw}))
 		o.add(E2E(before.Canon()+x.Canon()+after.Canon(), Opts{Opt: true, Sw: g.Sw}))
 	}
 }
